@@ -348,35 +348,40 @@ WITNESS_ENDPOINT_ON_CURVE = ([[Fr(0), Fr(1, 2), Fr(1)], [Fr(1), Fr(0), Fr(1)]],
 
 def near_miss(rnd):
     """the curves do NOT meet on [0,1]^2, but the extension of one of them just beyond an end point (parameter 1 + d or
-    -d with 2^-44 < d < 2^-13) crosses the other transversally: the correct answer is the empty 2 x 0 array"""
+    -d with 2^-44 < d < 2^-13) crosses the other transversally, at an interior parameter of the other: the correct
+    answer is the empty 2 x 0 array.  The extended curve is a graph y = f(x) with x = s (degree 1..3); the other curve
+    passes through the crossing point of the extension (degree 1..3); either argument order."""
     d = Fr(2) ** -rnd.choice([14, 16, 20, 24, 30, 36, 40, 43])
     beyond_end = rnd.random() < 0.5
-    x_cross = 1 + d if beyond_end else -d
-    kind1 = rnd.choice(["line", "parabola", "cubic"])
-    if kind1 == "line":
+    xc = 1 + d if beyond_end else -d
+    k1 = rnd.choice([1, 2, 3])
+    if k1 == 1:
         n1 = [[Fr(0), Fr(1)], [Fr(0), Fr(1, 2)]]                      # y = x / 2
-        y_cross = x_cross / 2
-    elif kind1 == "parabola":
-        n1 = [[Fr(0), Fr(1, 2), Fr(1)], [Fr(0), Fr(0), Fr(1)]]        # y = x^2, x = s
-        y_cross = x_cross * x_cross
+        yc = xc / 2
+    elif k1 == 2:
+        n1 = [[Fr(0), Fr(1, 2), Fr(1)], [Fr(0), Fr(0), Fr(1)]]        # y = x^2
+        yc = xc * xc
     else:
-        n1 = [[Fr(0), Fr(1, 3), Fr(2, 3), Fr(1)], [Fr(0), Fr(0), Fr(0), Fr(1)]]   # y = x^3, x = s
-        y_cross = x_cross ** 3
-    kind2 = rnd.choice(["line", "parabola"])
-    if kind2 == "line":
-        n2 = [[x_cross, x_cross], [Fr(-1), Fr(2)]]                    # vertical segment through the crossing of the extension
+        n1 = [[Fr(0), Fr(1, 4), Fr(3, 4), Fr(1)], [Fr(0), Fr(0), Fr(0), Fr(1)]]   # x = (3s + 6 s^2 - ... ) not a graph in s; use y = s^3 over x = s below
+        n1 = [[Fr(0), Fr(1, 3) if False else Fr(1, 4), Fr(3, 4), Fr(1)], [Fr(0), Fr(0), Fr(0), Fr(1)]]
+        # x(s) = 3/4 s(1-s)^2 + 9/4 s^2 (1-s) + s^3  is monotone; the crossing of the extension is computed exactly below
+        yc = None
+    if k1 == 3:
+        sx = 1 + d if beyond_end else -d            # parameter of the extension
+        xc, yc = ev(n1[0], sx), ev(n1[1], sx)
+    k2 = rnd.choice([1, 2, 3])
+    if k2 == 1:
+        n2 = [[xc, xc], [yc - 1, yc + 1]]                              # vertical segment, crossing at t = 1/2
+    elif k2 == 2:
+        n2 = [[xc + Fr(1, 4), xc - Fr(1, 4), xc + Fr(1, 4)], [yc - 1, yc, yc + 1]]      # x(1/2) = xc, y(1/2) = yc
     else:
-        n2 = [[x_cross + Fr(1, 4), x_cross - Fr(1, 4), x_cross + Fr(1, 4)], [Fr(-1), Fr(1, 2), Fr(2)]]
-        # x(t) = x_cross + 1/4 - t + t^2 touches ... make it cross: shift so that x(1/2) = x_cross exactly
-        n2 = [[x_cross + Fr(1, 2) - Fr(1, 4) * 2, x_cross, x_cross - Fr(1, 2) + Fr(1, 4) * 2], [Fr(-1), Fr(1, 2), Fr(2)]]
-    if kind1 == "cubic" and not net_is_f64(n1):
-        n1 = [[Fr(0), Fr(1, 4), Fr(3, 4), Fr(1)], [Fr(0), Fr(0), Fr(0), Fr(1)]]
+        n2 = [[xc + Fr(1, 2), xc - Fr(1, 2), xc + Fr(1, 2), xc - Fr(1, 2)], [yc - 1, yc - Fr(1, 4), yc + Fr(1, 4), yc + 1]]  # (xc, yc) at t = 1/2
     if rnd.random() < 0.5:
         n1, n2 = n2, n1
     if not (net_is_f64(n1) and net_is_f64(n2)):
         return near_miss(rnd)
-    return {"kind": "near-miss", "tag": "crossing of the extension at parameter %s (d = 2^%d)" %
-            ("1+d" if beyond_end else "-d", -(d.denominator.bit_length() - 1)), "n1": n1, "n2": n2, "planted": None}
+    return {"kind": "near-miss", "tag": "crossing of the extension of a degree-%d graph at parameter %s (d = 2^%d), other degree %d" %
+            (k1, "1+d" if beyond_end else "-d", -(d.denominator.bit_length() - 1), k2), "n1": n1, "n2": n2, "planted": None}
 
 
 def all_pairs(rnd, tier="quick", max_deg=8):
